@@ -776,9 +776,25 @@ impl Search {
         plys
     }
 
-    /// Verification hook: reports a transposition-table insert to the recorder.
+    /// Verification hook: reports a transposition-table insert to the recorder. What is reported is the
+    /// entry found in the table after the insert (read back here), not the values named at the call site.
     #[cfg(rce_verif)]
     fn verif_tt_write(&self, site: &str, score: Score, depth: Depth, bound: &str, best: Ply) {
+        if !crate::verif::recording() {
+            return;
+        }
+        let stored = TRANSPOSITION_TABLE
+            .read()
+            .ok()
+            .and_then(|t| t.get(&self.board.zkey).copied());
+        let (score, depth, bound, best) = stored.map_or((score, depth, bound, best), |e| {
+            let b = match e.bound {
+                Bounds::Exact => "E",
+                Bounds::Lower => "L",
+                Bounds::Upper => "U",
+            };
+            (e.score, e.depth, b, e.best_ply)
+        });
         crate::verif::tt_write(
             site,
             self.board.zkey.to_string(),
